@@ -26,12 +26,12 @@
    The pass uses Q only through  x = R1^-1 Q1^H b  and through products with Q2 Q2^H
    (J^H J, J^H k, k^H k); the model computes x from the normal equations A^H A x = A^H b (LU as
    coded on the normal matrix, LsLu.ls_lu) and replaces Q2 Q2^H y by y - A z with z the
-   normal-equation solution for the right-hand side y.  That every factorisation with the
-   properties of the code's Q (Q Q^H = I, Q2^H A = 0, columns of Q1 in the range of A) gives
-   exactly these values is standard linear algebra but is NOT proved in this development; it is
-   checked numerically on every run (checks/c02_kernel.py compares J^H J, J^H k and sum |k|^2
-   formed from the code's actual j_matrix / k_vector with the values computed here).  j_matrix
-   and k_vector themselves depend on the choice of Q2 and are not model outputs.
+   normal-equation solution for the right-hand side y.  That the products solve_auto forms with
+   the Q2 of _vnacommon_qr (Householder model of Lin/QrModel.v, the Q-forming loop and the Q2^H
+   accumulation of AutoKernelQrQ.v) are exactly these values is proved for every m >= n in
+   AutoKernelProjector.v / AutoKernelProjQI.v (premise: the sqrt / phase law instances of the run),
+   and checked numerically on every run as well (checks/c02_kernel.py).  j_matrix and k_vector
+   themselves depend on the choice of Q2 and are not model outputs.
    Not modelled: the update of the V matrices from x (measurement-error model,
    _vnacal_new_solve_update_all_v_matrices, called between the solve for x and the Jacobian loop);
    the v factors are inputs of the pass, one value per term for each of the two walks (without an
